@@ -34,6 +34,30 @@ int main(void) {
     printf("const ST_FORMAT %d\n", (int)POLYSEED_ERR_FORMAT);
     printf("const ST_MEMORY %d\n", (int)POLYSEED_ERR_MEMORY);
     printf("const ST_MULT_LANG %d\n", (int)POLYSEED_ERR_MULT_LANG);
+    /* the published constants, as the preprocessor and the compiler evaluate them in the current tree */
+    printf("const EPOCH %llu\n", (unsigned long long)EPOCH);
+    printf("const TIME_STEP %llu\n", (unsigned long long)TIME_STEP);
+    printf("const DATE_BITS %u\n", (unsigned)DATE_BITS);
+    printf("const DATE_MASK %u\n", (unsigned)DATE_MASK);
+    printf("const FEATURE_BITS %u\n", (unsigned)FEATURE_BITS);
+    printf("const FEATURE_MASK %u\n", (unsigned)FEATURE_MASK);
+    printf("const USER_FEATURES %u\n", (unsigned)USER_FEATURES);
+    printf("const USER_FEATURES_MASK %u\n", (unsigned)USER_FEATURES_MASK);
+    printf("const ENCRYPTED_MASK %u\n", (unsigned)ENCRYPTED_MASK);
+    printf("const GF_BITS %u\n", (unsigned)GF_BITS);
+    printf("const GF_SIZE %u\n", (unsigned)GF_SIZE);
+    printf("const GF_MASK %u\n", (unsigned)GF_MASK);
+    printf("const POLY_NUM_CHECK_DIGITS %u\n", (unsigned)POLY_NUM_CHECK_DIGITS);
+    printf("const SECRET_BITS %u\n", (unsigned)SECRET_BITS);
+    printf("const SECRET_SIZE %u\n", (unsigned)(SECRET_SIZE));
+    printf("const CLEAR_MASK %u\n", (unsigned)(uint8_t)(CLEAR_MASK));
+    printf("const COIN_MONERO %u\n", (unsigned)POLYSEED_MONERO);
+    printf("const COIN_AEON %u\n", (unsigned)POLYSEED_AEON);
+    printf("const COIN_WOWNERO %u\n", (unsigned)POLYSEED_WOWNERO);
+    /* multiplication by x in GF(2048), all 2048 elements, through the function the library itself uses */
+    printf("list MUL2");
+    for (unsigned x = 0; x < GF_SIZE; ++x) printf(" %u", (unsigned)gf_elem_mul2((gf_elem)x));
+    printf("\n");
     int n = polyseed_get_num_langs();
     printf("const NUM_LANGS %d\n", n);
     for (int i = 0; i < n; ++i) {
